@@ -1654,6 +1654,8 @@ class FlowProposal(RejectionProposal):
         if self.mask is not None:
             if isinstance(self.mask, list):
                 m = np.array(self.mask)
+            else:
+                m = self.mask
             self.flow_config["mask"] = m
 
         self.initialise(resumed=True)
